@@ -50,6 +50,48 @@ def e2e (bits S : Nat) (dist : String) (seed : Nat) (rows : List Nat) : String :
   let out := (shuffle S ρ { left := s1, right := s2 } { left := s2, right := s3 }).1
   s!"ok consistent={boolStr (consistentOut out)} rows={showNatList (sortNat (reconstruct out).flatten)}"
 
+/-! ### cardinality message with the observed destinations -/
+
+/-- the input shape of `n` rows under a deterministic distribution -/
+def inShape (dist : String) (S n : Nat) : Option (List Nat) :=
+  match dist with
+  | "rr" => some ((List.range S).map (fun s => ((List.range n).filter (fun i => i % S == s)).length))
+  | "last" => some ((List.range S).map (fun s => if s + 1 == S then n else 0))
+  | "first" => some ((List.range S).map (fun s => if s == 0 then n else 0))
+  | _ => none
+
+/-- `d0/d1/…`: per shard the destinations of record ids 0, 1, … as digits (`-` = none) -/
+def parseDests (s : String) : Option (Array (Array Nat)) :=
+  ((s.splitOn "/").mapM (fun t =>
+    if t = "-" then some #[] else (t.toList.mapM (fun (c : Char) => if c.isDigit then some (c.toNat - 48) else none)).map List.toArray)).map List.toArray
+
+def destFn (a : Array (Array Nat)) : Nat → Nat → Nat := fun j i => (a.getD j #[]).getD i 0
+
+def observedRound (a : Array (Array Nat)) : Round := { mask := fun _ _ => 0, dest := destFn a, shuf := fun _ l => l }
+
+/-- Model: all three helpers' tables have the announced cardinalities (`output_sizes_equal`). -/
+def cardResp (S : Nat) (sh : List Nat) (d12 d31 d23 : Array (Array Nat)) : String :=
+  let ρ : Rand := { r12 := observedRound d12, r23 := observedRound d23, r31 := observedRound d31, a := fun _ _ => 0, b := fun _ _ => 0 }
+  let c := showNatList (cardinalities S ρ sh)
+  s!"ok h1={c} h2={c} h3={c}"
+
+/-- Spec side: the three helpers hold the same number of rows on every shard, one entry per shard, and
+no row is lost or invented (the sizes add up to the number of input rows). -/
+def cardOracle (S n : Nat) (impl : String) : Option String :=
+  match impl.splitOn " " with
+  | ["ok", h1, h2, h3] =>
+    match (h1.dropPrefix? "h1=", h2.dropPrefix? "h2=", h3.dropPrefix? "h3=") with
+    | (some a, some b, some c) =>
+      match (parseNatList a.toString, parseNatList b.toString, parseNatList c.toString) with
+      | (some a, some b, some c) =>
+        if a ≠ b ∨ b ≠ c then some s!"the helpers' output tables differ in length: H1 {a}, H2 {b}, H3 {c} rows per shard"
+        else if a.length ≠ S then some "one output table per shard expected"
+        else if a.sum ≠ n then some s!"{n} rows in, {a.sum} rows out"
+        else none
+      | _ => some s!"unexpected response {impl}"
+    | _ => some s!"unexpected response {impl}"
+  | _ => some s!"the shuffle of an honest run failed or hung: {impl}"
+
 def parseHexList (s : String) : Option (List (List Nat)) :=
   if s = "-" then some [] else (s.splitOn ",").mapM parseHexBytes
 
@@ -72,6 +114,9 @@ def handle (toks : List String) : Option String :=
   match toks with
   | ["c05.e2e", _mode, bits, shards, dist, seed, rows] => some <| (do
       pure (e2e (← bits.toNat?) (← shards.toNat?) dist (← seed.toNat?) (← parseNatList rows))).getD "bad-request"
+  | ["c05.card", _mode, _bits, shards, dist, _seed, n, d12, d31, d23] => some <| (do
+      let S ← shards.toNat?
+      pure (cardResp S (← inShape dist S (← n.toNat?)) (← parseDests d12) (← parseDests d31) (← parseDests d23))).getD "bad-request"
   | ["c05.tags", bits, keys, rows, _expect] => some <| (do
       pure (tagsResp (← bits.toNat?) (← parseNatList keys) (← parseHexList rows))).getD "bad-request"
   | ["c05.addtags", bits, _seed, key, rows] => some <| (do
@@ -120,6 +165,13 @@ def oracle (toks : List String) (impl : String) : Option String :=
       | some rs => some (verdict (impl == s!"ok consistent=1 rows={showNatList (sortNat rs)}")
           "shuffle output is not a consistent re-sharing of the input multiset (or a helper failed/hung)")
       | none => some "unknown"
+  | ["c05.card", _, _, shards, _, _, n, _, _, _] =>
+      match (shards.toNat?, n.toNat?) with
+      | (some S, some n) =>
+        match cardOracle S n impl with
+        | none => some "holds"
+        | some why => some ("fails " ++ why)
+      | _ => some "unknown"
   | ["c05.tags", bits, keys, rows, _] =>
       match (do pure (impl == "ok " ++ showNatList ((← parseHexList rows).map (specCheck (← bits.toNat?) (← parseNatList keys))))) with
       | some b => some (verdict b "hashed tag values differ from Σ keyᵢ·wordᵢ + tag over GF(2^32)")
